@@ -33,6 +33,7 @@ fn registry() -> Vec<(&'static str, CheckFn, ReplayFn)> {
         ("C05", c05::check, c05::replay),
         ("C06", c06::check, c06::replay),
         ("C07", |t| e3::check(e3::Prop::C07, t), |v| e3::replay(e3::Prop::C07, v)),
+        ("C08", c08::check, c08::replay),
         ("C09", c09::check, c09::replay),
         ("C10", c10::check, c10::replay),
         ("C14", c14::check, c14::replay),
